@@ -107,7 +107,7 @@ class Contract:
                  locals=None, modifies=(), spec_funcs=None, ufuns=None, types=None, raises=None, ghost_at=None,
                  assert_at=None, lifted_asserts=(), alias_ok=(), pure=False, fragment=None, notes=None, module_env=None,
                  decreases=None, axioms=(), trusted=False, post_hints=(), exc_ensures=None, assume_at=None, unroll=None,
-                 variant="", outputs=None, call_ghost=None, defaults=None, defs=None, ghost_reads=None):
+                 variant="", outputs=None, call_ghost=None, defaults=None, defs=None, ghost_reads=None, call_overrides=None):
         self.file, self.func = file, func
         self.params = dict(params)
         self.returns = returns
@@ -141,6 +141,7 @@ class Contract:
         self.call_ghost = dict(call_ghost or {})
         self.defaults = dict(defaults or {})
         self.ghost_reads = list(ghost_reads or [])
+        self.call_overrides = dict(call_overrides or {})
         self.defs = dict(defs or {})  # name -> (argtypes, rettype, lambda source): function symbol with a definitional axiom
 
     @property
@@ -477,6 +478,14 @@ class Engine:
                 return Val(ra - rb, REAL)
         if isinstance(n.op, ast.Add) and isinstance(a.ty, ListT) and isinstance(b.ty, ListT):
             return self.list_concat(a, b, st)
+        if isinstance(n.op, ast.Add) and isinstance(a.ty, ListT) and isinstance(a.ty.elt, StrT) and isinstance(b.ty, StrT):
+            sv = z3.simplify(b.t)
+            if z3.is_int_value(sv) and sv.as_long() == str_code("\n"):
+                self.assumptions_used.add("record + '\\n' terminates the record: the field list is unchanged")
+                return a
+        if isinstance(n.op, ast.Add) and isinstance(a.ty, StrT) and isinstance(b.ty, StrT):
+            from . import lib
+            return Val(lib.cat(self)(a.t, b.t), STR)
         if isinstance(n.op, ast.Add) and isinstance(a.ty, TextT) and isinstance(b.ty, TextT):
             return Val(z3.Concat(a.t, b.t), TEXT)
         if isinstance(n.op, ast.BitOr) and isinstance(a.ty, SetT) and a.ty == b.ty:
@@ -805,7 +814,22 @@ class Engine:
         raise Unsupported("lambda outside a spec quantifier at line %s" % n.lineno)
 
     def ev_JoinedStr(self, n, st):
-        raise Unsupported("f-string at line %s" % n.lineno)
+        """f"a\t{x}..." is read like the %-format "a\t%s..." % (x, ...)"""
+        from . import lib
+        fmt, args = "", []
+        for v in n.values:
+            if isinstance(v, ast.Constant):
+                fmt += str(v.value).replace("%", "%%")
+            elif isinstance(v, ast.FormattedValue):
+                if v.format_spec is not None or v.conversion != -1:
+                    raise Unsupported("f-string conversion/format spec at line %s" % n.lineno)
+                fmt += "%s"
+                args.append(self.ev(v.value, st))
+            else:
+                raise Unsupported("f-string part at line %s" % n.lineno)
+        if "%%" in fmt:
+            raise Unsupported("literal % in f-string at line %s" % n.lineno)
+        return lib.format_value(self, fmt, args, st, n)
 
     # ---- calls ----------------------------------------------------------------------------------
     def ev_Call(self, n, st):
@@ -826,10 +850,20 @@ class Engine:
                 return h(self, n, st)
             if k in self.c.types and isinstance(self.c.types[k], (ObjT, TupleT)):
                 return self.construct(self.c.types[k], n, st)
+            if k in self.c.call_overrides:
+                return self.call_contract(self.reg.by_key[self.c.call_overrides[k]], n, st, None)
             con = self.reg.lookup_simple(self.c.file, k, self.imports)
             if con is not None:
                 return self.call_contract(con, n, st, None)
             if k in st.env:
+                recv = st.env[k]
+                if isinstance(recv.ty, ObjT):
+                    con = self.reg.lookup_method(recv.ty.cname, "__call__")
+                    if con is not None:
+                        n2 = ast.Call(func=ast.Attribute(value=n.func, attr="__call__", ctx=ast.Load()), args=n.args, keywords=n.keywords)
+                        ast.copy_location(n2, n)
+                        ast.fix_missing_locations(n2)
+                        return self.call_contract(con, n2, st, recv)
                 raise Unsupported("call of local value %s at line %s" % (k, n.lineno))
             raise Unsupported("call of unknown function %s at line %s" % (k, n.lineno))
         if isinstance(n.func, ast.Attribute):
@@ -914,7 +948,7 @@ class Engine:
             recv = self.coerce(recv, ty.inner, st, n, "method receiver")
             ty = recv.ty
         if isinstance(ty, ObjT):
-            con = self.reg.lookup_method(ty.cname, attr)
+            con = self.reg.lookup_method(ty.cname, attr, ty)
             if con is not None:
                 return self.call_contract(con, n, st, recv)
         h = lib.METHODS.get((type(ty).__name__, attr))
@@ -1174,6 +1208,7 @@ class Engine:
                 self.anchor_hits.add(anchor)
                 for e in facts:
                     st.assume(self.spec_bool(e, st))
+                    self.assumptions_used.add("assume_at %s in %s: %s" % (anchor, self.c.func, e[:160]))
         for anchor, claims in self.c.assert_at.items():
             if anchor.startswith(prefix) and head.startswith(anchor[len(prefix):]):
                 self.anchor_hits.add(anchor)
@@ -1227,6 +1262,14 @@ class Engine:
 
     def st_Expr(self, s, st):
         v = s.value
+        if isinstance(v, ast.Yield):
+            # generator: the yielded values, in order, are the function's result list
+            y = self.ev(v.value, st)
+            cur = st.env.get("yielded")
+            ty = cur.ty
+            y = self.coerce(y, ty.elt, st, s, "yielded value")
+            st.env["yielded"] = Val(ty.mk(z3.Store(ty.arr(cur.t), ty.len(cur.t), y.t), ty.len(cur.t) + 1), ty)
+            return [(st, "next", None)]
         if isinstance(v, ast.Call):
             from . import lib
             try:
@@ -1419,6 +1462,10 @@ class Engine:
                 self_.generic_visit(n)
 
             visit_Subscript = visit_Attribute
+
+            def visit_Yield(self_, n):
+                out.add("yielded")
+                self_.generic_visit(n)
 
             def visit_Call(self_, n):
                 # mutating method calls: x.append(..), x[..].add(..), ...
